@@ -61,7 +61,7 @@ def c20(ctx):
             script = [{"c": "addbp", "s": s, "stops": rng.random() < 0.3}] + script
         if rng.random() < 0.5 and ps == "rw+rw" and item["stackok"]:
             # memory breakpoints (read / write) on the data window; the run is resumed after each stop
-            script = [G.gen_mbp(rng) for _ in range(rng.randrange(1, 3))] + script + [{"c": "cont"}, {"c": "cont"}, {"c": "cont"}]
+            script = [G.gen_mbp(rng, item["prog"]) for _ in range(rng.randrange(1, 3))] + script + [{"c": "cont"}, {"c": "cont"}, {"c": "cont"}]
         for be in BACKENDS:
             jobs.append((item, script, be, rng.choice([{"maxline": 50}, {"maxline": 50}, {"maxline": 2}])))
     report(ctx, G.judge_jobs(ctx, jobs, "c20"), "C20", "backend-differs-from-reference")
